@@ -413,6 +413,10 @@ func appendSlice(expr ast.Expr, lhsV reflect.Value, rhsV reflect.Value) (reflect
 			if rhsT == interfaceType {
 				value = value.Elem()
 			}
+			if !value.IsValid() {
+				// a nil element has no value of the typed slice's element type
+				return nilValue, newStringError(expr, "invalid type conversion")
+			}
 			if lhsT == value.Type() {
 				lhsV = reflect.Append(lhsV, value)
 			} else if value.Type().ConvertibleTo(lhsT) {
@@ -429,7 +433,7 @@ func appendSlice(expr ast.Expr, lhsV reflect.Value, rhsV reflect.Value) (reflect
 			value := rhsV.Index(i)
 			if rhsT == interfaceType {
 				value = value.Elem()
-				if value.Kind() != reflect.Slice && value.Kind() != reflect.Array {
+				if !value.IsValid() || (value.Kind() != reflect.Slice && value.Kind() != reflect.Array) {
 					return nilValue, newStringError(expr, "invalid type conversion")
 				}
 			}
